@@ -441,6 +441,40 @@ var scenarios = []scenario{
 		}
 		return expect(r2, key(1), val('N', 10), true)
 	}},
+	{"F19-torn-freelist-entry", "C03", "crash tore a freelist entry; GC must keep working and later entries must stay aligned", func() (bool, string) {
+		dir := tmp("f19")
+		defer os.RemoveAll(dir)
+		s := openAt(dir, 100)
+		lowUseFile(s)
+		crash := copyDir(dir)
+		defer os.RemoveAll(crash)
+		s.Close()
+		os.Remove(filepath.Join(crash, "i.buckets"))
+		f, err := os.OpenFile(filepath.Join(crash, "i.free"), os.O_WRONLY|os.O_APPEND, 0)
+		must(err)
+		f.Write([]byte{90, 0, 0, 0, 0}) // 5 bytes of an entry
+		f.Close()
+		r := openAt(crash, 100)
+		defer r.Close()
+		must(r.Put(key(9), val('2', 18)))
+		must(r.Flush())
+		for i := 0; i < 2; i++ {
+			if _, err := gc(r, 25); err != nil {
+				return false, fmt.Sprintf("gc cycle %d after the crash: %v", i, err)
+			}
+			must(r.Flush())
+		}
+		for b, c := range map[byte]byte{1: 'A', 2: 'B', 3: 'C', 9: '2'} {
+			if ok, d := expect(r, key(b), val(c, 18), true); !ok {
+				return ok, d
+			}
+		}
+		fl, _ := os.ReadFile(filepath.Join(crash, "i.free"))
+		if len(fl)%12 != 0 {
+			return false, fmt.Sprintf("freelist file has %d bytes: entries are misaligned", len(fl))
+		}
+		return true, ""
+	}},
 	{"F15-reader-removes-current-entry", "C06", "Get interleaved with overwrite+flush+GC must not delete the key", func() (bool, string) {
 		dir := tmp("f15")
 		defer os.RemoveAll(dir)
